@@ -375,11 +375,10 @@ func mergeValues(opts *options, old, v value) (value, Error) {
 		return v, nil
 	}
 
-	if _, ok := v.(*cfgNil); ok {
-		if _, ok := old.(*cfgNil); ok {
-			// nil onto nil is nil, not an empty object
-			return v, nil
-		}
+	if _, ok := old.(*cfgNil); ok {
+		// nil is not a container, the new value takes its place as it is: nil
+		// onto nil is nil (not an empty object), an empty list stays a list
+		return v, nil
 	}
 
 	// check if new and old value evaluate to sub-configurations. If one is no
